@@ -156,7 +156,8 @@ func describeCase(c *gramCase) string {
 // ---- C01 ----
 
 const c01Rule = "generated grammars (<=7 productions, <=4 unions incl. recursive ones, every tag-language operator, typed literals, " +
-	"case-insensitive types, trap shapes) x lookahead ladder x AllowTrailing x 4 sampled/mutated inputs each, compared with a " +
+	"case-insensitive types, trap shapes; lexer profiles: a stateful lexer, the default text/scanner lexer, a user-written lexer.Definition with positive token types; one case in twenty goes " +
+	"through a parser derived for an inner production of a static recursive family) x lookahead ladder x AllowTrailing x 4 sampled/mutated inputs each, compared with a " +
 	"clean-room reference parser (acceptance + field-by-field AST); non-trivial = accepted after >=1 abandoned attempt that had " +
 	"consumed >=1 token, or rejected by a commit (failure beyond the lookahead), or a typed literal decided a match, or " +
 	"production nesting depth >= 2; distinct by SHA-256 of (grammar, input, options)"
